@@ -437,8 +437,7 @@ def apply(data, al):
             return s
         return pre.sub(lambda m: path_map[m.group(1)], s)
 
-    def fix_src(src, lmap):
-        out = src
+    def fix_code(out, lmap):
         for n, o in lmap.items():
             out = re.sub(r"(?<![\w.:])" + re.escape(n) + r"(?!\w|\(|::)", o, out)
         for n, o in glob_field.items():
@@ -448,6 +447,16 @@ def apply(data, al):
         for n, o in adt_last.items():
             out = re.sub(r"(?<![\w])" + re.escape(n) + r"(?![\w])", o, out)
         return out
+
+    def fix_src(src, lmap):
+        # code outside string literals: identifiers; inside a string literal only the `{..}` placeholders are code (inline captures), the rest is text
+        parts = re.split(r'("(?:[^"\\]|\\.)*")', src)
+        for i_, seg in enumerate(parts):
+            if i_ % 2 == 0:
+                parts[i_] = fix_code(seg, lmap)
+            elif lmap:
+                parts[i_] = re.sub(r"(?<!\{)\{([A-Za-z_]\w*)((?::[^{}]*)?)\}", lambda m_: "{" + lmap.get(m_.group(1), m_.group(1)) + m_.group(2) + "}", seg)
+        return "".join(parts)
 
     def rewrite(root, lmap):
         st = [root]
